@@ -26,11 +26,24 @@
 (* A callee whose work depends on the data (clipping, masking, wrapping longitudes, *)
 (* replacing sentinels, sorting, normalising weights) takes a different branch for  *)
 (* a different class; the frame condition holds for every one of them.              *)
+(* Exotic element kinds (EXO): element types whose VALUES are not exactly convertible*)
+(* to the callee's working type float64 and back - longdouble holding non-double     *)
+(* values ("g"), uint64 above 2^63 ("u8"), int64 above 2^53 ("I8"), float16 ("f2"),   *)
+(* complex128 with imaginary parts ("c16"), object arrays of python numbers ("O").    *)
+(* A callee may reject them; it may not write its converted values back.             *)
+(* Size class per parameter: "small" (6 elements) or "large" (>= 2^25 bytes, 1-d):    *)
+(* code may treat a big buffer differently (in-place shortcuts, chunking).           *)
+(* Deliberate rejections: the catalogue names the option values (rejopts), value     *)
+(* classes (rejvals) and size mismatches (samesize) on which a call is DOCUMENTED to  *)
+(* raise; they are explored on purpose, also with large arguments: a rejected call   *)
+(* is a stutter step on every argument, exactly like a call that returns.            *)
 EXTENDS VU
 
 FrOrders  == {"native", "swapped"}
 FrContigs == {"c", "strided", "reversed"}
-FrKinds   == {"f8", "f4", "i8", "i4", "u1", "S", "tbl"}
+EXO == {"g", "u8", "I8", "f2", "c16", "O"}
+FrKinds   == {"f8", "f4", "i8", "i4", "u1", "S", "tbl"} \cup EXO
+FrSizes   == {"small", "large"}
 
 NUM == {"f8", "f4", "i8", "i4", "u1"}
 FLT == {"f8", "f4"}
@@ -38,24 +51,73 @@ ANY == NUM \cup {"S"}
 TBL == {"tbl"}
 
 \* ---- value classes -----------------------------------------------------------------
-FrVals == {"ord", "nan", "inf", "zero", "neg", "equal", "dup", "ext", "empty"}
+\* "short": one element fewer than the other arguments (1-d) - a size mismatch
+FrVals == {"ord", "nan", "inf", "zero", "neg", "equal", "dup", "ext", "empty", "short"}
 \* what a role admits: search radii / scale factors must be valid angles (a NaN, infinite or
 \* astronomically large search radius is not an input of a pair search: it asks for the whole
 \* mesh); ids derived by the harness and documented output targets are not varied; the small
 \* matrices have a fixed shape
 FrRoleVals(role) ==
-    CASE role \in {"radius", "dz"} -> {"ord", "zero", "equal", "dup", "empty"}
-      [] role = "scale" -> {"ord", "equal", "dup", "empty"}
+    CASE role \in {"radius", "dz"} -> {"ord", "zero", "equal", "dup", "empty", "short"}
+      [] role = "scale" -> {"ord", "equal", "dup", "empty", "short"}
       \* a difference of two right ascensions is wrapped 360 degrees at a time: 1e300 is not such a difference
       [] role = "dlon" -> FrVals \ {"ext"}
       [] role \in {"htmid2", "table_target"} -> {"ord"}
-      [] role \in {"cov", "cor", "diagerr"} -> FrVals \ {"empty"}
+      [] role \in {"cov", "cor", "diagerr"} -> FrVals \ {"empty", "short"}
       [] OTHER -> FrVals
 
 FrP(p, role, kinds, base) == [p |-> p, role |-> role, kinds |-> kinds, base |-> base, mut |-> FALSE, vals |-> FrRoleVals(role)]
 FrMut(p, role, kinds, base) == [p |-> p, role |-> role, kinds |-> kinds, base |-> base, mut |-> TRUE, vals |-> FrRoleVals(role)]
+\* ---- deliberate rejections and the size class (tables by entry-point name) -------------------
+\* option values on which the call is documented to raise whatever the data
+FrRejOpts == {
+  <<"Recfile.write", "reject_closed">>, <<"SFile.write", "reject_closed">>,
+  <<"numpy_util.extract_fields", "reject_missing">>, <<"numpy_util.reorder_fields", "reject_missing">>,
+  <<"numpy_util.split_fields", "reject_missing">>, <<"sfile.split_fields", "reject_missing">>, <<"recfile.split_fields", "reject_missing">>,
+  <<"stat.histogram", "reject_nodata">>, <<"stat.histogram+weights", "reject_nodata">>, <<"stat.Binner(x)", "reject_nodata">>,
+  <<"stat.Binner(x,y,weights)", "reject_nodata">>, <<"stat.histogram2d", "reject_nodata">>, <<"stat.histogram2d+z+weights", "reject_nodata">>,
+  <<"coords.euler", "reject_select7">>, <<"coords.eq2xyz", "reject_units">>, <<"coords.xyz2eq", "reject_units">>, <<"coords.sphdist", "reject_units">> }
+\* (parameter, value class) on which the call is documented to raise
+FrRejVals == {
+  <<"numpy_util.match", "arr1", "dup">>, <<"numpy_util.match", "arr1", "equal">>, <<"numpy_util.match", "arr1", "empty">>, <<"numpy_util.match", "arr2", "empty">>,
+  <<"numpy_util.match_multi", "arr1", "dup">>, <<"numpy_util.match_multi", "arr1", "equal">>,
+  <<"numpy_util.match_multi", "arr1", "empty">>, <<"numpy_util.match_multi", "arr2", "empty">> }
+\* entry points that check that their array arguments have one size and raise otherwise
+FrSameSize == {"stat.histogram+weights", "stat.Binner(x,y)", "stat.Binner(x,weights)", "stat.Binner(x,y,weights)", "stat.histogram2d",
+               "stat.histogram2d+z+weights", "stat.wmom", "coords.eq2xyz", "coords.sphdist", "coords.gcirc", "coords.eq2sdss", "coords.sdss2eq",
+               "coords.rotate", "coords.euler", "coords.eq2gal", "coords.gal2eq", "coords.eq2ec", "coords.ec2eq", "coords.ec2gal", "coords.gal2ec",
+               "WCS.image2sky", "WCS.sky2image", "Cosmo.Dc", "Cosmo.Dm", "Cosmo.Da", "Cosmo.Dl", "Cosmo.V", "Cosmo.Ezinv_integral",
+               "Cosmo.sigmacritinv", "HTM.lookup_id", "Matcher()", "numpy_util.combine_fields", "numpy_util.combine_arrlist"}
+\* (entry point, option) cheap enough to be run on arguments of 2^25 bytes (vectorised numpy / one C loop; no python
+\* loop over the elements, no root finding per element, no pair search)
+FrBig == {
+  <<"sfile.write", "binary">>, <<"Recfile.write", "binary">>, <<"Recfile.write", "reject_closed">>, <<"recfile.write", "binary">>,
+  <<"numpy_util.extract_fields", "two">>, <<"numpy_util.extract_fields", "reject_missing">>, <<"numpy_util.remove_fields", "one">>,
+  <<"numpy_util.add_fields", "descr">>, <<"numpy_util.reorder_fields", "front">>, <<"numpy_util.combine_fields", "two">>,
+  <<"numpy_util.copy_fields", "default">>, <<"numpy_util.split_fields", "some">>, <<"numpy_util.split_fields", "reject_missing">>,
+  <<"numpy_util.to_native", "keep_dtype_off">>, <<"numpy_util.to_big_endian", "keep_dtype_on">>, <<"numpy_util.to_little_endian", "keep_dtype_off">>,
+  <<"numpy_util.byteswap", "keep_dtype_off">>,
+  <<"numpy_util.match", "unsorted">>, <<"numpy_util.match", "presorted">>, <<"numpy_util.match_multi", "default">>,
+  <<"stat.histogram", "nbin">>, <<"stat.histogram", "reject_nodata">>, <<"stat.histogram+weights", "nbin">>, <<"stat.Binner(x,y)", "nbin">>,
+  <<"stat.histogram2d", "nx_ny">>, <<"stat.histogram2d", "reject_nodata">>,
+  <<"stat.wmom", "sdev">>, <<"stat.sigma_clip", "default">>, <<"stat.sigma_clip+weights", "default">>, <<"stat.get_stats", "default">>,
+  <<"stat.interplin", "default">>, <<"stat.boxcar_average", "n3">>,
+  <<"coords.eq2gal", "j2000">>, <<"coords.euler", "select3">>, <<"coords.euler", "reject_select7">>, <<"coords.eq2xyz", "deg">>,
+  <<"coords.eq2xyz", "reject_units">>, <<"coords.xyz2eq", "deg">>, <<"coords.sphdist", "deg_deg">>, <<"coords.sphdist", "reject_units">>,
+  <<"coords.gcirc", "default">>, <<"coords.eq2sdss", "default">>, <<"coords.sdss2eq", "default">>, <<"coords.shiftlon", "shift_neg">>,
+  <<"coords.shiftra", "wrap">>, <<"coords.radec2aitoff", "default">>, <<"coords.rotate", "default">>, <<"coords.rect_area", "default">>,
+  <<"WCS.image2sky", "tpv">>, <<"WCS.sky2image", "tpv_nofind">>, <<"WCS.get_jacobian", "tan">>, <<"WCS.image2sph", "tan">>,
+  <<"WCS.sph2image", "tan">>, <<"WCS.Rotate", "forward">>, <<"WCS.ApplyCDMatrix", "forward">>, <<"WCS.Distort", "sip">>,
+  <<"wcsutil.wrap_ra_diff", "default">>,
+  <<"Cosmo.Dc", "array_array">>, <<"Cosmo.Da", "array_scalar">>, <<"Cosmo.Ez_inverse", "flat">>, <<"Cosmo.distmod", "flat">>,
+  <<"HTM.lookup_id", "depth4">> }
+
 FrC(name, fam, path, params, ndims, opts, text) ==
-    [name |-> name, fam |-> fam, path |-> path, params |-> params, ndims |-> ndims, opts |-> opts, text |-> text]
+    [name |-> name, fam |-> fam, path |-> path, params |-> params, ndims |-> ndims, opts |-> opts, text |-> text,
+     rejopts |-> {o \in opts : <<name, o>> \in FrRejOpts},
+     rejvals |-> {pv \in {"arr1", "arr2"} \X FrVals : <<name, pv[1], pv[2]>> \in FrRejVals},
+     samesize |-> name \in FrSameSize,
+     big |-> {o \in opts : <<name, o>> \in FrBig}]
 
 Tbl(p)      == FrP(p, "table", TBL, "tbl")
 Lon(p)      == FrP(p, "lon", NUM, "f8")
@@ -73,27 +135,27 @@ FrRecfile == {
   FrC("sfile.write",   "recfile", "view_native", <<Tbl("data")>>, {0, 1, 2},
       {"binary", "csv", "tab", "space", "colon", "binary_append", "csv_append", "csv_header"}, {"csv", "tab", "space", "colon", "csv_append", "csv_header"}),
   FrC("SFile.write",   "recfile", "view_native", <<Tbl("data")>>, {0, 1, 2},
-      {"binary", "csv", "tab", "binary_twice", "csv_twice", "binary_rplus"}, {"csv", "tab", "csv_twice"}),
+      {"binary", "csv", "tab", "binary_twice", "csv_twice", "binary_rplus", "reject_closed"}, {"csv", "tab", "csv_twice"}),
   FrC("recfile.write", "recfile", "view_native", <<Tbl("data")>>, {0, 1, 2},
       {"binary", "csv", "tab", "space", "binary_append", "csv_append"}, {"csv", "tab", "space", "csv_append"}),
   FrC("Recfile.write", "recfile", "view_native", <<Tbl("data")>>, {0, 1, 2},
-      {"binary", "csv", "tab", "space", "csv_bracket", "csv_padnull", "csv_ignorenull", "csv_twice", "binary_twice"},
+      {"binary", "csv", "tab", "space", "csv_bracket", "csv_padnull", "csv_ignorenull", "csv_twice", "binary_twice", "reject_closed"},
       {"csv", "tab", "space", "csv_bracket", "csv_padnull", "csv_ignorenull", "csv_twice"}),
   FrC("io.write",      "recfile", "view_native", <<Tbl("data")>>, {0, 1, 2},
       {"rec_binary", "rec_csv", "rec_tab", "rec_binary_append", "rec_csv_append"}, {"rec_csv", "rec_tab", "rec_csv_append"}),
   FrC("io.write_rec",  "recfile", "view_native", <<Tbl("data")>>, {0, 1, 2}, {"binary", "csv", "tab"}, {"csv", "tab"}) }
 
 FrFields == {
-  FrC("numpy_util.extract_fields",  "fields", "copy", <<Tbl("arr")>>, {0, 1, 2}, {"one", "two", "sub_array_field", "nonstrict"}, {}),
+  FrC("numpy_util.extract_fields",  "fields", "copy", <<Tbl("arr")>>, {0, 1, 2}, {"one", "two", "sub_array_field", "nonstrict", "reject_missing"}, {}),
   FrC("numpy_util.remove_fields",   "fields", "copy", <<Tbl("arr")>>, {0, 1, 2}, {"one", "two", "scalar_name"}, {}),
   FrC("numpy_util.add_fields",      "fields", "copy", <<Tbl("arr")>>, {0, 1, 2}, {"descr", "dtype", "defaults"}, {}),
-  FrC("numpy_util.reorder_fields",  "fields", "copy", <<Tbl("arr")>>, {0, 1, 2}, {"front", "all", "nonstrict"}, {}),
+  FrC("numpy_util.reorder_fields",  "fields", "copy", <<Tbl("arr")>>, {0, 1, 2}, {"front", "all", "nonstrict", "reject_missing"}, {}),
   FrC("numpy_util.combine_fields",  "fields", "copy", <<Tbl("arr1"), FrP("arr2", "table2", TBL, "tbl")>>, {0, 1, 2}, {"two", "single"}, {}),
   FrC("numpy_util.copy_fields",     "fields", "copy", <<Tbl("arr1"), FrMut("arr2", "table_target", TBL, "tbl")>>, {0, 1, 2}, {"default"}, {}),
-  FrC("numpy_util.split_fields",    "fields", "alias_read", <<Tbl("data")>>, {0, 1, 2}, {"all", "some", "getnames"}, {}),
+  FrC("numpy_util.split_fields",    "fields", "alias_read", <<Tbl("data")>>, {0, 1, 2}, {"all", "some", "getnames", "reject_missing"}, {}),
   \* the same function exists three times (numpy_util, sfile, recfile.Util)
-  FrC("sfile.split_fields",         "fields", "alias_read", <<Tbl("data")>>, {0, 1, 2}, {"all", "some", "getnames"}, {}),
-  FrC("recfile.split_fields",       "fields", "alias_read", <<Tbl("data")>>, {0, 1, 2}, {"all", "some", "getnames"}, {}),
+  FrC("sfile.split_fields",         "fields", "alias_read", <<Tbl("data")>>, {0, 1, 2}, {"all", "some", "getnames", "reject_missing"}, {}),
+  FrC("recfile.split_fields",       "fields", "alias_read", <<Tbl("data")>>, {0, 1, 2}, {"all", "some", "getnames", "reject_missing"}, {}),
   \* documented as writing into arr; the value arrays it copies from are protected
   FrC("numpy_util.copy_fields_by_name", "fields", "copy", <<FrMut("arr", "table_target", TBL, "tbl"), Dat("vals")>>, {0, 1, 2}, {"one", "two"}, {}),
   FrC("numpy_util.combine_arrlist", "fields", "copy", <<Tbl("arr1"), FrP("arr2", "table", TBL, "tbl")>>, {1}, {"keep", "nokeep"}, {}) }
@@ -111,15 +173,15 @@ FrMatch == {
 
 FrHist == {
   FrC("stat.histogram", "hist", "copy", <<Dat("data")>>, {0, 1, 2},
-      {"binsize", "nbin", "nperbin", "binsize_rev", "nbin_minmax", "more"}, {}),
+      {"binsize", "nbin", "nperbin", "binsize_rev", "nbin_minmax", "more", "reject_nodata"}, {}),
   FrC("stat.histogram+weights", "hist", "copy", <<Dat("data"), Wt("weights")>>, {0, 1, 2},
-      {"binsize", "nbin", "nperbin", "more"}, {}),
-  FrC("stat.Binner(x)", "hist", "copy", <<Dat("x")>>, {0, 1, 2}, {"binsize", "nbin", "nperbin", "binsize_rev"}, {}),
+      {"binsize", "nbin", "nperbin", "more", "reject_nodata"}, {}),
+  FrC("stat.Binner(x)", "hist", "copy", <<Dat("x")>>, {0, 1, 2}, {"binsize", "nbin", "nperbin", "binsize_rev", "reject_nodata"}, {}),
   FrC("stat.Binner(x,y)", "hist", "copy", <<Dat("x"), Dat("y")>>, {0, 1, 2}, {"binsize", "nbin", "nperbin"}, {}),
   FrC("stat.Binner(x,weights)", "hist", "copy", <<Dat("x"), Wt("weights")>>, {0, 1, 2}, {"binsize", "nbin", "nperbin"}, {}),
-  FrC("stat.Binner(x,y,weights)", "hist", "copy", <<Dat("x"), Dat("y"), Wt("weights")>>, {0, 1, 2}, {"binsize", "nbin", "nperbin", "nperbin_nomerge"}, {}),
-  FrC("stat.histogram2d", "hist", "copy", <<Dat("x"), Dat("y")>>, {1}, {"nx_ny", "xbin_ybin", "rev", "more"}, {}),
-  FrC("stat.histogram2d+z+weights", "hist", "copy", <<Dat("x"), Dat("y"), Dat("z"), Wt("weights")>>, {1}, {"nx_ny", "more"}, {}) }
+  FrC("stat.Binner(x,y,weights)", "hist", "copy", <<Dat("x"), Dat("y"), Wt("weights")>>, {0, 1, 2}, {"binsize", "nbin", "nperbin", "nperbin_nomerge", "reject_nodata"}, {}),
+  FrC("stat.histogram2d", "hist", "copy", <<Dat("x"), Dat("y")>>, {1}, {"nx_ny", "xbin_ybin", "rev", "more", "reject_nodata"}, {}),
+  FrC("stat.histogram2d+z+weights", "hist", "copy", <<Dat("x"), Dat("y"), Dat("z"), Wt("weights")>>, {1}, {"nx_ny", "more", "reject_nodata"}, {}) }
 
 FrStats == {
   FrC("stat.wmom",       "stats", "copy", <<Dat("arr"), Wt("weights")>>, {1, 2}, {"default", "calcerr", "sdev", "inputmean"}, {}),
@@ -138,10 +200,10 @@ FrStats == {
 FrEulerNames == {"coords.eq2gal", "coords.gal2eq", "coords.eq2ec", "coords.ec2eq", "coords.ec2gal", "coords.gal2ec"}
 FrCoords ==
   {FrC(n, "coords", "copy", <<Lon("lon"), Lat("lat")>>, {0, 1, 2}, {"j2000", "b1950", "dtype_f4"}, {}) : n \in FrEulerNames} \cup {
-  FrC("coords.euler",   "coords", "copy", <<Lon("ai"), Lat("bi")>>, {0, 1, 2}, {"select1", "select2", "select3", "select4", "select5", "select6"}, {}),
-  FrC("coords.eq2xyz",  "coords", "copy", <<Lon("ra"), Lat("dec")>>, {0, 1, 2}, {"deg", "rad", "stomp"}, {}),
-  FrC("coords.xyz2eq",  "coords", "alias_read", <<FrP("x", "unitx", FLT, "f8"), FrP("y", "unity", FLT, "f8"), FrP("z", "unitz", FLT, "f8")>>, {0, 1, 2}, {"deg", "rad", "stomp"}, {}),
-  FrC("coords.sphdist", "coords", "copy", <<Lon("ra1"), Lat("dec1"), Lon("ra2"), Lat("dec2")>>, {0, 1, 2}, {"deg_deg", "rad_rad", "deg_rad", "rad_deg"}, {}),
+  FrC("coords.euler",   "coords", "copy", <<Lon("ai"), Lat("bi")>>, {0, 1, 2}, {"select1", "select2", "select3", "select4", "select5", "select6", "reject_select7"}, {}),
+  FrC("coords.eq2xyz",  "coords", "copy", <<Lon("ra"), Lat("dec")>>, {0, 1, 2}, {"deg", "rad", "stomp", "reject_units"}, {}),
+  FrC("coords.xyz2eq",  "coords", "alias_read", <<FrP("x", "unitx", FLT, "f8"), FrP("y", "unity", FLT, "f8"), FrP("z", "unitz", FLT, "f8")>>, {0, 1, 2}, {"deg", "rad", "stomp", "reject_units"}, {}),
+  FrC("coords.sphdist", "coords", "copy", <<Lon("ra1"), Lat("dec1"), Lon("ra2"), Lat("dec2")>>, {0, 1, 2}, {"deg_deg", "rad_rad", "deg_rad", "rad_deg", "reject_units"}, {}),
   FrC("coords.gcirc",   "coords", "copy", <<Lon("ra1"), Lat("dec1"), Lon("ra2"), Lat("dec2")>>, {0, 1, 2}, {"default", "getangle"}, {}),
   FrC("coords.eq2sdss", "coords", "copy", <<Lon("ra"), Lat("dec")>>, {0, 1, 2}, {"default", "dtype_f4"}, {}),
   FrC("coords.sdss2eq", "coords", "copy", <<FrP("clambda", "clambda", NUM, "f8"), FrP("ceta", "ceta", NUM, "f8")>>, {0, 1, 2}, {"default", "dtype_f4"}, {}),
@@ -194,7 +256,10 @@ FrCallNames == {c.name : c \in FrCalls}
 FrCallNamed(n) == CHOOSE c \in FrCalls : c.name = n
 
 \* ---- layouts ---------------------------------------------------------------------
-FrHasOrder(k) == k \notin {"u1", "S"}
+FrHasOrder(k) == k \notin {"u1", "S", "O"}
+\* the exotic kinds a parameter is offered in: all of them where it takes every numeric kind, the floating ones where it takes floats only
+FrXKinds(p) == IF NUM \subseteq p.kinds THEN EXO ELSE IF FLT \subseteq p.kinds /\ p.base \in FLT THEN {"g", "f2"} ELSE {}
+FrKindsOf(p) == p.kinds \cup FrXKinds(p)
 FrLayoutOK(l, nd) == (FrHasOrder(l.kind) \/ l.order = "native") /\ (nd # 0 \/ l.contig # "reversed")
 FrLayoutsOf(p, nd) == {l \in [order : FrOrders, contig : FrContigs, kind : p.kinds] : FrLayoutOK(l, nd)}
 FrBase(p) == [order |-> "native", contig |-> "c", kind |-> p.base]
@@ -218,12 +283,14 @@ FrLayAssignments(c, nd, Pairwise) == FrOneOff(c, nd) \cup FrUniform(c, nd) \cup 
 \* ---- value classes of the arguments --------------------------------------------------
 \* NaN / inf need a floating element type (or a table: its float fields), negative values a signed one;
 \* "all equal", "duplicates" need more than one element; an empty argument is 1-d
-FrValKindOK(v, k) == (v \in {"nan", "inf"} => k \in FLT \cup TBL) /\ (v = "neg" => k \notin {"u1", "S"})
-FrValNdOK(v, nd)  == (v = "empty" => nd = 1) /\ (v \in {"equal", "dup"} => nd # 0)
+\* the exotic kinds carry their own (inexact) ordinary values only
+FrValKindOK(v, k) == (v \in {"nan", "inf"} => k \in FLT \cup TBL) /\ (v = "neg" => k \notin {"u1", "S"}) /\ (v # "ord" => k \notin EXO)
+FrValNdOK(v, nd)  == (v \in {"empty", "short"} => nd = 1) /\ (v \in {"equal", "dup"} => nd # 0)
 \* the element kind a class is shown in: the base kind of the parameter, or f8 where the base kind cannot hold it
 FrValKind(p, v) == IF FrValKindOK(v, p.base) THEN p.base ELSE "f8"
 FrValAdm(p, nd) == {v \in p.vals \ {"ord"} : FrValNdOK(v, nd) /\ FrValKind(p, v) \in p.kinds /\ FrValKindOK(v, FrValKind(p, v))}
 FrValOK(p, l, v, nd) == v = "ord" \/ (v \in p.vals /\ FrValNdOK(v, nd) /\ FrValKindOK(v, l.kind))
+FrAllSmall(c) == [i \in DOMAIN c.params |-> "small"]
 FrValLay(p, v, o, g) == LET k == IF v = "ord" THEN p.base ELSE FrValKind(p, v)
                         IN [order |-> IF FrHasOrder(k) THEN o ELSE "native", contig |-> g, kind |-> k]
 FrAllOrd(c) == [i \in DOMAIN c.params |-> "ord"]
@@ -238,22 +305,22 @@ FrAllOrd(c) == [i \in DOMAIN c.params |-> "ord"]
 \*                 data exactly where the weight is zero" - and NaN against inf; thorough: all pairs).
 FrValOneOff(c, nd, OG) ==
     UNION {UNION {{[lay |-> [i \in DOMAIN c.params |-> IF i = q THEN FrValLay(c.params[i], v, og[1], og[2]) ELSE FrBase(c.params[i])],
-                    val |-> [i \in DOMAIN c.params |-> IF i = q THEN v ELSE "ord"]]
+                    val |-> [i \in DOMAIN c.params |-> IF i = q THEN v ELSE "ord"], size |-> FrAllSmall(c)]
                    : og \in OG} : v \in FrValAdm(c.params[q], nd)} : q \in DOMAIN c.params}
 FrValKinds(c, nd) ==
     UNION {UNION {{[lay |-> [i \in DOMAIN c.params |-> IF i = q THEN [order |-> "native", contig |-> "c", kind |-> k] ELSE FrBase(c.params[i])],
-                    val |-> [i \in DOMAIN c.params |-> IF i = q THEN v ELSE "ord"]]
+                    val |-> [i \in DOMAIN c.params |-> IF i = q THEN v ELSE "ord"], size |-> FrAllSmall(c)]
                    : k \in {kk \in c.params[q].kinds : FrValKindOK(v, kk)}} : v \in FrValAdm(c.params[q], nd)} : q \in DOMAIN c.params}
 FrValSame(c, nd, v) == [i \in DOMAIN c.params |-> IF v \in FrValAdm(c.params[i], nd) THEN v ELSE "ord"]
 FrValUniform(c, nd) ==
-    {[lay |-> [i \in DOMAIN c.params |-> FrValLay(c.params[i], FrValSame(c, nd, v)[i], "native", "c")], val |-> FrValSame(c, nd, v)]
+    {[lay |-> [i \in DOMAIN c.params |-> FrValLay(c.params[i], FrValSame(c, nd, v)[i], "native", "c")], val |-> FrValSame(c, nd, v), size |-> FrAllSmall(c)]
      : v \in {w \in FrVals \ {"ord"} : FrValSame(c, nd, w) # FrAllOrd(c)}}
 FrCrossQuick == LET A == {"nan", "inf"}  B == {"zero", "neg"} IN (A \X B) \cup (B \X A) \cup {<<"nan", "inf">>, <<"inf", "nan">>}
 FrCrossAll   == (FrVals \ {"ord"}) \X (FrVals \ {"ord"})
 FrValCross(c, nd, XP) ==
     UNION {{[lay |-> [i \in DOMAIN c.params |-> IF i = qr[1] THEN FrValLay(c.params[i], x[1], "native", "c")
                                                 ELSE IF i = qr[2] THEN FrValLay(c.params[i], x[2], "native", "c") ELSE FrBase(c.params[i])],
-             val |-> [i \in DOMAIN c.params |-> IF i = qr[1] THEN x[1] ELSE IF i = qr[2] THEN x[2] ELSE "ord"]]
+             val |-> [i \in DOMAIN c.params |-> IF i = qr[1] THEN x[1] ELSE IF i = qr[2] THEN x[2] ELSE "ord"], size |-> FrAllSmall(c)]
             : x \in {y \in XP : y[1] \in FrValAdm(c.params[qr[1]], nd) /\ y[2] \in FrValAdm(c.params[qr[2]], nd)}}
            : qr \in {x \in (DOMAIN c.params) \X (DOMAIN c.params) : x[1] < x[2]}}
 FrValAssignments(c, nd, Pairwise) ==
@@ -261,9 +328,46 @@ FrValAssignments(c, nd, Pairwise) ==
     ELSE FrValOneOff(c, nd, {<<"native", "c">>}) \cup FrValUniform(c, nd) \cup FrValCross(c, nd, FrCrossQuick)
 \* the value classes are explored in the dimensionalities ValNDims (all of the call's where it has none of them)
 FrValNd(c, ValNDims) == IF c.ndims \cap ValNDims # {} THEN c.ndims \cap ValNDims ELSE c.ndims
-FrAssignments(c, nd, Pairwise, ValNDims) ==
-    {[lay |-> l, val |-> FrAllOrd(c)] : l \in FrLayAssignments(c, nd, Pairwise)} \cup
-    (IF nd \in FrValNd(c, ValNDims) THEN FrValAssignments(c, nd, Pairwise) ELSE {})
+\* ---- exotic element kinds: one parameter in an exotic kind (ordinary - inexact - values), the others in base layout;
+\* quick: native contiguous and swapped strided, thorough: every order x contiguity
+FrExoOneOff(c, nd, OG) ==
+    UNION {UNION {{[lay |-> [i \in DOMAIN c.params |-> IF i = q THEN [order |-> IF FrHasOrder(k) THEN og[1] ELSE "native", contig |-> og[2], kind |-> k]
+                                                       ELSE FrBase(c.params[i])],
+                    val |-> FrAllOrd(c), size |-> FrAllSmall(c)]
+                   : og \in OG} : k \in FrXKinds(c.params[q])} : q \in DOMAIN c.params}
+FrExoAssignments(c, nd, Pairwise) ==
+    FrExoOneOff(c, nd, IF Pairwise THEN FrOG(nd) ELSE {<<"native", "c">>, <<"swapped", "strided">>})
+
+\* ---- large arguments (1-d, options of c.big): all parameters large, or one large and the others small (for an entry point
+\* that wants one size that is a deliberate rejection), in the order/contiguity shapes LG, with ordinary values and - all large -
+\* with each value class on which the call is documented to raise
+FrLargeVals(c, S) ==
+    {FrAllOrd(c)} \cup
+    (IF S = DOMAIN c.params
+     THEN {[i \in DOMAIN c.params |-> IF i = qv[1] THEN qv[2] ELSE "ord"]
+           : qv \in {x \in (DOMAIN c.params) \X FrVals : <<c.params[x[1]].p, x[2]>> \in c.rejvals /\ x[2] \in FrValAdm(c.params[x[1]], 1)}}
+     ELSE {})
+FrLargeFor(c, S, LG) ==
+    UNION {{[lay |-> [i \in DOMAIN c.params |-> IF i \in S THEN FrAdapt(c.params[i], og[1], og[2]) ELSE FrBase(c.params[i])],
+             val |-> v, size |-> [i \in DOMAIN c.params |-> IF i \in S THEN "large" ELSE "small"]]
+            : v \in FrLargeVals(c, S)} : og \in LG}
+FrLargeAssignments(c, nd, opt, Pairwise) ==
+    IF nd # 1 \/ opt \notin c.big THEN {}
+    ELSE LET LG == IF Pairwise THEN {<<"native", "c">>, <<"swapped", "c">>, <<"swapped", "strided">>, <<"native", "strided">>}
+                   ELSE {<<"swapped", "c">>}
+         IN UNION {FrLargeFor(c, S, LG) : S \in {DOMAIN c.params} \cup {{q} : q \in DOMAIN c.params}}
+
+\* is the invocation one of the DELIBERATE rejections (the callee is documented to raise)?
+FrCount(v, z) == IF v = "empty" THEN "none" ELSE IF v = "short" THEN z \o "-1" ELSE z
+FrExpectReject(c, opt, val, size) ==
+    \/ opt \in c.rejopts
+    \/ \E i \in DOMAIN c.params : <<c.params[i].p, val[i]>> \in c.rejvals
+    \/ c.samesize /\ \E i, j \in DOMAIN c.params : FrCount(val[i], size[i]) # FrCount(val[j], size[j])
+
+FrAssignments(c, nd, opt, Pairwise, ValNDims) ==
+    {[lay |-> l, val |-> FrAllOrd(c), size |-> FrAllSmall(c)] : l \in FrLayAssignments(c, nd, Pairwise)} \cup
+    (IF nd \in FrValNd(c, ValNDims) THEN FrValAssignments(c, nd, Pairwise) \cup FrExoAssignments(c, nd, Pairwise) ELSE {}) \cup
+    FrLargeAssignments(c, nd, opt, Pairwise)
 
 \* ---- the frame condition on one observed invocation -----------------------------------
 \* snap = Seq over parameters of [data, base, dtype, flags]: opaque tokens taken from the real
